@@ -270,7 +270,8 @@ func formatInto(sb *strings.Builder, format string, args []string) (int, error) 
 			j := 0
 			for ; j < max && i+j < len(format); j++ {
 				c := format[i+j]
-				if (c >= '0' && c <= '9') ||
+				if (c >= '0' && c <= '7') ||
+					(hex && c >= '8' && c <= '9') ||
 					(hex && c >= 'a' && c <= 'f') ||
 					(hex && c >= 'A' && c <= 'F') {
 					// valid octal or hex char
@@ -311,8 +312,8 @@ func formatInto(sb *strings.Builder, format string, args []string) (int, error) 
 				sb.WriteByte(c)
 			case '0', '1', '2', '3', '4', '5', '6', '7':
 				digits := readDigits(3, false)
-				// if digits don't fit in 8 bits, 0xff via strconv
-				n, _ := strconv.ParseUint(digits, 8, 8)
+				// three octal digits may not fit in 8 bits; keep the low byte
+				n, _ := strconv.ParseUint(digits, 8, 16)
 				sb.WriteByte(byte(n))
 			case 'x', 'u', 'U':
 				i++
